@@ -44,7 +44,10 @@ SPEC = {
         "one module; torch's hook dictionaries are modelled as ordered association lists (insertion at the end, at the front with "
         "prepend=True); global forward hooks, backward hooks and always_call are not modelled",
         "post-conditions are proved over the reals (Mathlib rpow) for the definitions the driver executes on Float; real tensors "
-        "are float64 and p-norms are compared at 1e-6; complex scales are not generated",
+        "are float64 (p-norms compared at 1e-6) or float32 (magnitude programs only; p-norms compared at 1e-4, model values at "
+        "2e-5); float16 / bfloat16 targets and complex scales are not generated",
+        "magnitude programs keep |x|**p inside the normal range of the tensor's type (|p| * (|log2 magnitude| + 6) <= 100 for "
+        "float32, 900 for float64): underflow / overflow of the intermediate power sum inside torch's vector_norm is not exercised",
         "normalisation: the property speaks about vectors with norm >= eps and about zero vectors; 0 < norm < eps is reported in the "
         "evidence histogram and only compared against the model (theorem normalize_small gives the value)",
         "negative norm orders: initial vectors have no zero entries; a vector that acquires a zero entry later has IEEE norm 0 "
@@ -55,7 +58,13 @@ DRIVER = "drivers/C16.lean"
 ERRS = {"RuntimeError", "ValueError", "TypeError", "AttributeError", "IndexError", "KeyError"}
 TOL_MODEL = 1e-9
 TOL_NORM = 1e-6
-STATS = {"norm_runs": 0, "norm_fibres_checked_at_1e-6": 0, "zero_fibres": 0, "fibres_with_0<=norm<eps (not covered)": 0,
+# per floating-point type of the watched tensor: torch dtype, tolerance of the comparison with the (binary64) model,
+# tolerance of the p-norm post-condition (both relative to max(1, |value|)), and the bound on |p| * |log2 magnitude| that
+# keeps |x|**p away from the type's underflow / overflow thresholds (2**-126 / 2**-1022)
+DTYPES = {"f64": (torch.float64, TOL_MODEL, TOL_NORM, 900.0),
+          "f32": (torch.float32, 2e-5, 1e-4, 100.0)}
+NORM_DECADES = {}
+STATS = {"norm_runs": 0, "norm_fibres_checked_at_1e-6": 0, "norm_fibres_checked_f32_at_0.0001": 0, "zero_fibres": 0, "fibres_with_0<=norm<eps (not covered)": 0,
          "clamp_runs": 0}
 
 
@@ -135,8 +144,10 @@ class Real:
     def __init__(self):
         self._reset(0.0, [], (0,), None, "plain")
 
-    def _reset(self, delta, vals, shape, path, kind):
+    def _reset(self, delta, vals, shape, path, kind, dtype="f64"):
         self.log = []
+        self.dtname = dtype
+        self.dtype = DTYPES[dtype][0]
         self.path = path
         self.shape = shape
         self.kindattr = kind
@@ -149,7 +160,7 @@ class Real:
         self.Probe = make_state_probe(self.log)
         self.small = 0
         if path is not None:
-            t = torch.tensor(vals, dtype=torch.float64).reshape(shape)
+            t = torch.tensor(vals, dtype=self.dtype).reshape(shape)
             owner = self._owner()
             if kind == "buf":
                 owner.register_buffer(path.split(".")[-1], t)
@@ -168,7 +179,7 @@ class Real:
     def _vals(self):
         if self.path is None:
             return []
-        return self._attr().detach().reshape(-1).tolist()
+        return self._attr().detach().reshape(-1).double().tolist()
 
     # -- views --------------------------------------------------------------------------------
     def _view(self, mout, sout):
@@ -228,10 +239,10 @@ class Real:
         me = weakref.ref(self)
 
         def wrapped(module):
-            before = me()._attr().detach().clone()
+            before = me()._attr().detach().clone().double()     # exact for every floating-point type generated
             orig(module)
             me().log.append(f"{idx}:{'pre' if idx in me().pre_set else 'post'}")
-            me().snaps.append((idx, before, me()._attr().detach().clone()))
+            me().snaps.append((idx, before, me()._attr().detach().clone().double()))
         object.__setattr__(h, "hook", wrapped)   # instance attribute shadows the method
 
     def _exec(self, tok):
@@ -242,19 +253,20 @@ class Real:
             shape = tuple(int(x) for x in tok[3].split("x")) if len(tok) > 3 and tok[3] != "s" else (len(vals),)
             path = tok[4] if len(tok) > 4 and tok[4] != "-" else None
             kind = tok[5] if len(tok) > 5 else "plain"
-            self._reset(delta, vals, shape, path, kind)
+            dtype = tok[6] if len(tok) > 6 else "f64"
+            self._reset(delta, vals, shape, path, kind, dtype)
             self.pre_set = set()
             return "ok-begin"
         if op == "set":
             vals = [h2f(x) for x in tok[1].split(",")]
-            t = torch.tensor(vals, dtype=torch.float64).reshape(self.shape)
+            t = torch.tensor(vals, dtype=self.dtype).reshape(self.shape)
             setattr(self._owner(), self.path.split(".")[-1], t)
             return "ok"
         if op == "swap":
             # replace the object that OWNS the watched attribute (an intermediate object on the dotted path)
             # by a fresh one carrying the new value; for the specification this is just an assignment
             vals = [h2f(x) for x in tok[1].split(",")]
-            t = torch.tensor(vals, dtype=torch.float64).reshape(self.shape)
+            t = torch.tensor(vals, dtype=self.dtype).reshape(self.shape)
             parts = self.path.split(".")
             if len(parts) == 1:
                 setattr(self.mod, parts[0], t)
@@ -315,8 +327,9 @@ class Real:
                 h = Normalization(self.mod, self.path, p, sc, dim, eps, train_update=tr, eval_update=ev,
                                   as_prehook=a, prepend=pp)
 
-                def check(before, after, p=p, sc=sc, eps=eps, groups=groups):
+                def check(before, after, p=p, sc=sc, eps=eps, groups=groups, dtname=self.dtname):
                     bf, af = before.reshape(-1).tolist(), after.reshape(-1).tolist()
+                    tol = DTYPES[dtname][2]
                     STATS["norm_runs"] += 1
                     for g in groups:
                         x, y = [bf[i] for i in g], [af[i] for i in g]
@@ -327,9 +340,11 @@ class Real:
                                 return f"zero-vector-moved({y})"
                         elif n >= eps and n > 0:
                             m = pynorm(y, p)
-                            STATS["norm_fibres_checked_at_1e-6"] += 1
-                            if not abs(m - abs(sc)) <= TOL_NORM * max(1.0, abs(sc)):
-                                return f"norm({m})!=|scale|({abs(sc)})"
+                            STATS["norm_fibres_checked_at_1e-6" if dtname == "f64" else f"norm_fibres_checked_{dtname}_at_{tol:g}"] += 1
+                            dec = f"{dtname} 1e{10 * math.floor(math.log10(n) / 10):+d}"
+                            NORM_DECADES[dec] = NORM_DECADES.get(dec, 0) + 1
+                            if not abs(m - abs(sc)) <= tol * max(1.0, abs(sc)):
+                                return f"norm({m})!=|scale|({abs(sc)})[{dtname},norm-before={n:.6g},eps={eps:g}]"
                         else:
                             STATS["fibres_with_0<=norm<eps (not covered)"] += 1
                     return ""
@@ -391,15 +406,21 @@ class Real:
 # ---------------------------------------------------------------------------------------------
 # comparison with tolerance on the value part
 
-def close(a: float, c: float) -> bool:
+def close(a: float, c: float, tol: float = TOL_MODEL) -> bool:
     if a == c:
         return True
     if math.isnan(a) or math.isnan(c):
         return math.isnan(a) and math.isnan(c)
-    return abs(a - c) <= TOL_MODEL * max(1.0, abs(a), abs(c))
+    return abs(a - c) <= tol * max(1.0, abs(a), abs(c))
 
 
-def m_equal(real_m: str, drv_m: str) -> bool:
+def case_dtype(case) -> str:
+    """floating-point type of the watched tensor: 7th token of the `begin` line (real-side information)"""
+    t = case[0].split() if case else []
+    return t[6] if len(t) > 6 and t[0] == "begin" else "f64"
+
+
+def m_equal(real_m: str, drv_m: str, tol: float = TOL_MODEL) -> bool:
     if real_m == drv_m:
         return True
     rp, dp = real_m.split(" | "), drv_m.split(" | ")
@@ -411,15 +432,16 @@ def m_equal(real_m: str, drv_m: str) -> bool:
     if rv[1] == "-" or dv[1] == "-":
         return rv[1] == dv[1]
     ra, da = rv[1].split(","), dv[1].split(",")
-    return len(ra) == len(da) and all(close(h2f(x), h2f(y)) for x, y in zip(ra, da))
+    return len(ra) == len(da) and all(close(h2f(x), h2f(y), tol) for x, y in zip(ra, da))
 
 
 def compare_case(case, real, resp):
+    tol = DTYPES[case_dtype(case)][1]
     for i, ((rm, rs), line) in enumerate(zip(real, resp)):
         dm, ds = seqcheck.split_resp(line)
         if rs != ds:
             return (i, "spec", ds, rs)
-        if not m_equal(rm, dm):
+        if not m_equal(rm, dm, tol):
             return (i, "model", dm, rm)
     return None
 
@@ -730,6 +752,110 @@ def value_program(rng, maxlen=16):
     return lines
 
 
+# log2 of the element magnitude, per floating-point type: from far below to far above 1, all well inside the type's normal
+# range (binary32: 2**-126; binary64: 2**-1022)
+MAG_EXPS = {"f32": [-34, -30, -27, -24, -20, -14, -7, 0, 0, 10, 20],
+            "f64": [-80, -60, -45, -34, -27, -20, -7, 0, 0, 10, 30]}
+MAG_EPS = [1e-12, 1e-12, 1e-12, 2.0 ** -40, 2.0 ** -60, 2.0 ** -100, 1e-6]
+
+
+def scaled_vals(rng, shape, exps, nonzero=False):
+    """dyadic values k/8 * 2**e (exact in binary32 and binary64), e drawn per element from `exps`; some zero vectors"""
+    numel = 1
+    for s in shape:
+        numel *= s
+    mode = rng.random()
+    out = []
+    for _ in range(numel):
+        e = rng.choice(exps)
+        if nonzero:
+            k = rng.choice([-1, 1]) * rng.randint(1, 40)
+        elif mode < 0.08:
+            k = 0
+        elif mode < 0.2:
+            k = rng.choice([0, 0, 1, -2]) * rng.randint(0, 24)
+        else:
+            k = rng.randint(-40, 40)
+        out.append(float(k) / 8 * 2.0 ** e)
+    return out
+
+
+def magnitude_program(rng, maxlen=10):
+    """Normalization (sometimes with a Clamping hook) on a tensor of either floating-point type whose vectors have norms on
+    every scale between the hook's epsilon and the type's range: the post-condition speaks about EVERY vector with norm >= eps"""
+    dt = rng.choice(["f32", "f32", "f64"])
+    limit = DTYPES[dt][3]
+    shape = rng.choice(SHAPES)
+    path = rng.choice(PATHS)
+    kind = rng.choice(["plain", "buf"])
+    e0 = rng.choice(MAG_EXPS[dt])
+    # one magnitude for the whole tensor, or two magnitudes mixed element by element
+    exps = [e0] if rng.random() < 0.7 else [e0, e0, rng.choice(MAG_EXPS[dt])]
+    worst = max(abs(e) for e in exps) + 6          # k/8 lies in [2**-3, 2**2.4]; sums of up to 8 elements
+    orders = [p for p in ORDERS if p == math.inf or abs(p) * worst <= limit]
+    p = rng.choice(orders)
+    neg = p < 0
+    sc = rng.choice([1.0, 2.0, 0.5, -1.5, 3.25, 10.0])
+    eps = rng.choice(MAG_EPS)
+    a, pp, tr, ev = rng.random() < 0.5, rng.random() < 0.5, rng.random() < 0.85, rng.random() < 0.8
+    nd = rng.choice([None, 1, 1, 2]) if len(shape) > 1 else rng.choice([None, 1])
+    if nd is None:
+        dim = None
+    else:
+        dim = tuple(sorted(rng.sample(range(len(shape)), min(nd, len(shape)))))
+        if rng.random() < 0.3:
+            dim = tuple(d - len(shape) for d in dim)
+    gs = ";".join(",".join(map(str, g)) for g in groups_for(shape, dim))
+    dim_s = "N" if dim is None else ",".join(map(str, dim))
+    p_s = "inf" if p == math.inf else f2h(p)
+    specs = [f"vmk norm {p_s} {f2h(sc)} {f2h(eps)} {gs} {dim_s} {b(a)} {b(pp)} {b(tr)} {b(ev)}"]
+    if not neg and rng.random() < 0.25:
+        # a Clamping hook on the same tensor, bounds on the scale of the data or of the normalised result (not with a negative
+        # order: a clamped-to-zero entry has IEEE norm 0, the gap the property does not speak about, and x / eps may then
+        # leave the range of float32)
+        u = 2.0 ** rng.choice([e0, 0])
+        lo = rng.randint(-24, 16) / 8 * u
+        hi = lo + rng.randint(1, 24) / 8 * u
+        r = rng.random()
+        lo_s = "N" if r < 0.2 else f2h(lo)
+        hi_s = "N" if 0.2 <= r < 0.4 else f2h(hi)
+        specs.append(f"vmk clamp {lo_s} {hi_s} {b(rng.random() < 0.5)} {b(rng.random() < 0.5)} T T")
+    # forward's constant.  float64: as in value_program.  float32: the real tensor and the binary64 model round differently, so
+    # a constant that cancels normalised components (all elements ~delta -> components -|scale|/k**(1/p)) would make the
+    # comparison with the model ill-conditioned; the constant is 0 or lies on the (small) scale of the data, where it can
+    # only cancel exactly (dyadic values) and is absorbed by normalised components
+    if neg:
+        delta = 0.0
+    elif dt == "f64":
+        delta = rng.choice([0.0, 0.0, 0.0, 0.375, -0.8125, 2.75])
+    elif e0 <= -14 and rng.random() < 0.4:
+        delta = rng.choice([-1, 1]) * rng.randint(1, 24) / 8 * 2.0 ** e0
+    else:
+        delta = 0.0
+    shp = "x".join(map(str, shape))
+    lines = [f"begin {f2h(delta)} {vals_s(scaled_vals(rng, shape, exps, nonzero=neg))} {shp} {path} {kind} {dt}"]
+    lines += specs
+    n = len(specs)
+    for i in range(n):
+        if rng.random() < 0.9:
+            lines.append(f"register {i}")
+    for _ in range(rng.randint(3, maxlen)):
+        r = rng.random()
+        if r < 0.35:
+            lines.append("call")
+        elif r < 0.6:
+            lines.append(f"{'swap' if rng.random() < 0.3 else 'set'} {vals_s(scaled_vals(rng, shape, exps, nonzero=neg))}")
+        elif r < 0.68:
+            lines.append(f"mode {b(rng.random() < 0.5)}")
+        elif r < 0.86:
+            lines.append(f"manual {rng.randrange(n)} {b(rng.random() < 0.6)} {b(rng.random() < 0.6)}")
+        elif r < 0.92:
+            lines.append(f"{rng.choice(['register', 'deregister'])} {rng.randrange(n)}")
+        else:
+            lines.append(f"{rng.choice(['trainexec', 'evalexec'])} {rng.randrange(n)} {b(rng.random() < 0.5)}")
+    return lines
+
+
 def corpus_cases():
     from pathlib import Path
     d = Path(__file__).resolve().parent.parent.parent / "corpus" / "C16"
@@ -753,7 +879,9 @@ def explore(ctx) -> Exploration:
     rnd = [random_program(rng) for _ in range(nrand)]
     nval = 500 if not thorough else 2500
     val = [value_program(rng) for _ in range(nval)]
-    cases += rnd + val
+    nmag = 300 if not thorough else 1500
+    mag = [magnitude_program(rng) for _ in range(nmag)]     # drawn after the older streams: their cases are unchanged
+    cases += rnd + val + mag
     for c in cases:
         for l in c:
             t = l.split()
@@ -764,6 +892,10 @@ def explore(ctx) -> Exploration:
             if t[0] == "begin" and len(t) > 4:
                 ex.count("attr_path", t[4])
                 ex.count("attr_shape", t[3])
+                ex.count("attr_dtype", t[6] if len(t) > 6 else "f64")
+                if len(t) > 6 and t[2] != "-":
+                    top = max(abs(h2f(x)) for x in t[2].split(","))
+                    ex.count("magnitude_program_initial_max_abs", "0" if top == 0 else f"2^{10 * math.floor(math.log2(top) / 10):+d}..")
         ex.count("program_length", str(10 * (len(c) // 10)) + "+")
     run_cases(ctx, cases, ex)
     ex.rule = ("cases = corpus + exhaustive single-hook table (5 hook configurations x prepend x trainexec x evalexec x module mode x "
@@ -772,11 +904,17 @@ def explore(ctx) -> Exploration:
                "(length <= 40, up to ~6 hooks of both kinds, 7% of object-addressed ops name a collected or never-created object) + "
                "seeded value programs (Clamping / Normalization on a float64 tensor attribute at w / sub.w / sub.inner.w, plain or "
                "buffer, 6 shapes, 9 norm orders incl. inf and negative, dims None / single / tuples / negative, scales incl. negative, "
-               "eps incl. large ones, zero vectors; forward adds a constant so that pre/post placement is visible in the values); a "
+               "eps incl. large ones, zero vectors; forward adds a constant so that pre/post placement is visible in the values) + "
+               "seeded magnitude programs (Normalization, sometimes with Clamping, on a float32 or float64 tensor whose elements are "
+               "k/8 * 2**e with e from -34..20 (float32) / -80..30 (float64), one or two magnitudes mixed per tensor, eps from 1e-12 "
+               "(default) down to 2**-100, norm orders restricted so that |x|**p stays inside the type's normal range; every vector "
+               "with norm >= eps is held to norm == |scale| at 1e-4 (float32) / 1e-6 (float64), re-assigned mid-run by set / swap); a "
                "case is non-trivial when at least one hook actually ran; distinct = distinct protocol text")
-    ex.samples = [exh[0], rnd[0], val[0]]
+    ex.samples = [exh[0], rnd[0], val[0], mag[0]]
     ex.extra["post_condition_checks"] = dict(STATS)
-    ex.extra["streams"] = {"corpus": ncorpus, "exhaustive": len(exh), "random_programs": len(rnd), "value_programs": len(val)}
+    ex.extra["norm_checked_fibres_by_dtype_and_decade_of_norm_before"] = dict(sorted(NORM_DECADES.items()))
+    ex.extra["streams"] = {"corpus": ncorpus, "exhaustive": len(exh), "random_programs": len(rnd), "value_programs": len(val),
+                           "magnitude_programs": len(mag)}
     return ex
 
 
